@@ -97,6 +97,7 @@ def opOfJson (j : Json) : Option Op :=
   | "remove" => some (.remove ids)
   | "realloc" => some (.realloc (jstr (jget j "wid")))
   | "each" => some (.workloadEach ids (jbool (jget j "ignore")))
+  | "replace" => some (.replace ids)
   | "remap" => some (.remap (jstr (jget j "node")))
   | "nodespod" => some (.nodesPod nf)
   | "nodesop" => some (.nodesOp nf)
@@ -158,10 +159,12 @@ def handleOrder (j : Json) : Json :=
     let optional := match op with
       | .remove _ => eps.filter isNodeOpOnly
       | .realloc _ => eps.filter isNodeOpOnly
+      | .replace _ => eps.filter isNodeOpOnly
       | _ => []
     let required := match op with
       | .remove _ => eps.filter (!isNodeOpOnly ·)
       | .realloc _ => eps.filter (!isNodeOpOnly ·)
+      | .replace _ => eps.filter (!isNodeOpOnly ·)
       | _ => eps
     let agree := matchEpisodes (implEps.map normStr) (required.map normStr) (optional.map normStr)
     let nacq (t : Trace) : Nat := (t.filter fun e => match e with | .acq _ => true | _ => false).length
